@@ -87,8 +87,20 @@ func runPermGroup(sc *gScen, k, natural int, tags []string, w *hx.Writer) {
 			if _, tied := ties[key]; tied {
 				continue
 			}
-			a := append([]string{}, objs...)
-			b := append([]string{}, ref.fields[key]...)
+			// "which COMPONENT a point receives": compare component identity, not the version (whether a holder sees an
+			// early proxy or the raw instance can depend on where a cycle is entered; version consistency is C03's subject)
+			strip := func(xs []string) []string {
+				var out []string
+				for _, x := range xs {
+					if i := strings.Index(x, "#"); i >= 0 {
+						x = x[:i]
+					}
+					out = append(out, x)
+				}
+				return out
+			}
+			a := strip(objs)
+			b := strip(ref.fields[key])
 			info := r.slotInfo[key]
 			if info[0] == "P" || info[0] == "I" {
 				sort.Strings(a)
